@@ -32,6 +32,7 @@ type discloseScn struct {
 	Effective bool     `json:"effective"`
 	Inside    bool     `json:"inside"`
 	FSMod     bool     `json:"fsmod"` // fs.FS-backed module
+	Prime     bool     `json:"prime"` // the same daemon first serves the same request on the sibling module "mm" (same names, sizes, mtimes; other contents)
 }
 
 type discloseObs struct {
@@ -95,6 +96,15 @@ func discloseHandler(w *workerCtx, line []byte) (any, error) {
 	os.WriteFile(filepath.Join(mod, "f"), []byte("inside f"), 0o644)
 	os.WriteFile(filepath.Join(mod, "a", "inner"), []byte("inside inner"), 0o644)
 	os.WriteFile(filepath.Join(mod, "a", "a", "deep"), []byte("inside deep"), 0o644)
+	// the sibling module "mm" holds files with the SAME relative names, sizes and mtimes, and other contents
+	os.MkdirAll(filepath.Join(mod2, "a", "a"), 0o755)
+	twin := time.Unix(1_111_111_111, 0)
+	for _, pr := range [][2]string{{"f", "INSIDE F"}, {"a/inner", "INSIDE INNER"}, {"a/a/deep", "INSIDE DEEP"}} {
+		os.WriteFile(filepath.Join(mod2, pr[0]), []byte(pr[1]), 0o644)
+		os.Chtimes(filepath.Join(mod2, pr[0]), twin, twin)
+		os.Chtimes(filepath.Join(mod, pr[0]), twin, twin)
+	}
+	own := map[string][]byte{"f": []byte("inside f"), "a/inner": []byte("inside inner"), "a/a/deep": []byte("inside deep")}
 	os.Symlink("../outside", filepath.Join(mod, "l"))
 	os.Symlink("../outside/file", filepath.Join(mod, "lf"))
 	os.Symlink("a", filepath.Join(mod, "li"))
@@ -161,8 +171,8 @@ func discloseHandler(w *workerCtx, line []byte) (any, error) {
 			lo.Checksum = true
 		}
 	}
-	sess := func() error {
-		fmt.Fprintf(a, "@RSYNCD: 27\nm\n")
+	sess := func(a *xport.End, rd *bufio.Reader, module, arg string, record bool) error {
+		fmt.Fprintf(a, "@RSYNCD: 27\n%s\n", module)
 		if _, err := rd.ReadString('\n'); err != nil {
 			return err
 		}
@@ -195,12 +205,19 @@ func discloseHandler(w *workerCtx, line []byte) (any, error) {
 		}
 		sorted := fl.SortedEntries()
 		for _, e := range sorted {
+			if !record {
+				break
+			}
 			obs.Listed = append(obs.Listed, e.Name)
 			if e.Size == int64(len(secret)) && int64(e.Mtime) == secretTime.Unix() {
 				obs.Leaks = append(obs.Leaks, "metadata of outside/file in entry "+e.Name)
 			}
 			if lo.Checksum && e.Sum == wirekit.PlainMD4(secret) {
 				obs.Leaks = append(obs.Leaks, "checksum of outside/file in entry "+e.Name)
+			}
+			// a listed checksum that is not the checksum of the module's OWN file of that name was computed from something else
+			if data, ok := own[e.Name]; ok && lo.Checksum && e.IsReg() && !s.FSMod && e.Sum != wirekit.PlainMD4(data) {
+				obs.Leaks = append(obs.Leaks, "checksum in entry "+e.Name+" is not that of the module's own file")
 			}
 		}
 		// fetch every listed regular file in full
@@ -231,9 +248,14 @@ func discloseHandler(w *workerCtx, line []byte) (any, error) {
 			if _, err := in.Bytes(16); err != nil {
 				return err
 			}
-			obs.Fetched++
-			if bytes.Contains(data, secret[:40]) {
-				obs.Leaks = append(obs.Leaks, "content of outside/file fetched as "+e.Name)
+			if record {
+				obs.Fetched++
+				if bytes.Contains(data, secret[:40]) {
+					obs.Leaks = append(obs.Leaks, "content of outside/file fetched as "+e.Name)
+				}
+				if want, ok := own[e.Name]; ok && !bytes.Equal(data, want) {
+					obs.Leaks = append(obs.Leaks, "content fetched as "+e.Name+" is not the module's own file")
+				}
 			}
 			_ = seed
 		}
@@ -253,8 +275,30 @@ func discloseHandler(w *workerCtx, line []byte) (any, error) {
 		out.Int32(-1)
 		return nil
 	}
+	if s.Prime {
+		// the same request shape, first, to the sibling module on the same server
+		pa, pb := xport.Conn(-1, -1, nil)
+		pdone := make(chan error, 1)
+		go func() {
+			conn := rsyncd.NewConnection(pb, pb, "127.0.0.1:7776")
+			err := srv.HandleDaemonConn(context.Background(), conn)
+			pb.Close()
+			pdone <- err
+		}()
+		perr := make(chan error, 1)
+		go func() { perr <- sess(pa, bufio.NewReader(pa), "mm", "mm/", false) }()
+		select {
+		case <-perr:
+		case <-idleAfter(20 * time.Second):
+		}
+		pa.Close()
+		select {
+		case <-pdone:
+		case <-idleAfter(5 * time.Second):
+		}
+	}
 	errc := make(chan error, 1)
-	go func() { errc <- sess() }()
+	go func() { errc <- sess(a, rd, "m", arg, true) }()
 	select {
 	case err := <-errc:
 		if err != nil {
